@@ -19,10 +19,10 @@ EXPLANATION = (
 
 
 def run(ctx: Ctx) -> None:
-    C.rule_tab_sd(ctx)
-    R.rule_damparg(ctx, [f'{R.BP}.load_state_dict'])
+    ctx.do(C.rule_tab_sd)
+    ctx.do(R.rule_damparg, [f'{R.BP}.load_state_dict'])
     only = {f'{R.BP}.load_state_dict', f'{R.BP}.state_dict'}
-    S.rule_S1_S6(ctx, 'KAISA', only=only)
-    S.rule_S2(ctx, 'KAISA')
-    S.rule_S8(ctx)
-    C.rule_ts_fut(ctx)
+    ctx.do(S.rule_S1_S6, 'KAISA', only=only)
+    ctx.do(S.rule_S2, 'KAISA')
+    ctx.do(S.rule_S8)
+    ctx.do(C.rule_ts_fut)
